@@ -59,6 +59,14 @@ def _c06_literals():
             src = tagged + 'pub mod a { use super::*; %s\n%s }\npub mod b { use super::*; %s\n%s }\n' % (head, da, head, db) + \
                 'pub fn run() { let (x, y) = (feed(&a::%s(%s)), feed(&b::%s(%s))); println!("@ID@\\tfeed\\t{} {}", x == y, x.contains("u8:7;u8:8;u8:2;")); }' % (ctor, vals, ctor, vals)
             out.append((text + ' ' + da + '   [tagged::PhantomData<T>(u8, ..) and tagged::PhantomPinned(u8) are the user\'s own types and feed their u8]', src, [('feed', 'true true')]))
+    # a key written by a `macro_rules!` macro: an `$m:expr` fragment is ONE operand, whatever stands around it
+    for head, text in (('#[::derive_ex::derive_ex(Hash)]', '#[derive_ex(Hash)]'), ('#[derive(::derive_ex::Ex)] #[derive_ex(Hash)]', '#[derive(Ex)] #[derive_ex(Hash)]')):
+        for decl, ctor in (('pub struct $name(#[hash(key = $d % $m)] pub u8, #[eq(key = $m * $d)] pub u8);', 'X'),
+                           ('pub enum $name { A(#[hash(key = $d % $m)] u8, #[ord(key = $m * $d)] u8), B }', 'X::A')):
+            src = 'macro_rules! bucketed { ($d:tt, $name:ident, $m:expr) => { %s\n%s }; }\nbucketed!($, X, 2 + 2);\n' % (head, decl) + \
+                'pub fn run() { println!("@ID@\\tfeed\\t{}", feed(&%s(4, 3))); }' % ctor
+            out.append(('macro_rules! bucketed { ($d:tt, $name:ident, $m:expr) => { %s %s } }  bucketed!($, X, 2 + 2);   [the fields feed 4 %% (2 + 2) and (2 + 2) * 3]' % (text, decl),
+                        src, [('feed', 'u8:0;u8:12;')]))
     return out
 
 
